@@ -50,3 +50,100 @@ pub fn record(d: Dump) {
 pub fn take_dump() -> Option<Dump> {
     LAST.with(|l| l.borrow_mut().take())
 }
+
+// ------------------------------------------------------------------ LIR items
+//
+// The item list the code generator walks (`codegen::codegen`): the order in
+// which functions are defined and constants are evaluated, and for every item
+// the symbols its body refers to. Recorded at the start of `codegen`, i.e. it
+// is the list of *this* compilation, generated clone/drop/eq functions
+// included.
+
+/// One item of the lowered program, in emission order.
+#[derive(Clone, Debug)]
+pub struct LirItem {
+    /// symbol the item is declared under (`module.functions` key)
+    pub name: String,
+    /// for a constant: (full name of the constant, symbol of the drop
+    /// function the code generator fetches for it)
+    pub constant: Option<(String, String)>,
+    /// symbols of `Call { func }` and `FunctionAddress { name }`, first
+    /// occurrence order, no duplicates
+    pub funcs: Vec<String>,
+    /// full names of `ConstantAddress { name }` that are not constants of the
+    /// runtime (those exist before the loop starts), no duplicates
+    pub consts: Vec<String>,
+}
+
+thread_local! {
+    static LAST_LIR: RefCell<Option<Vec<LirItem>>> = const { RefCell::new(None) };
+}
+
+pub(crate) fn record_lir(
+    ir: &[crate::lir::Item],
+    type_info: &crate::typechecker::info::TypeInfo,
+    is_runtime_constant: &dyn Fn(&crate::typechecker::scope::ResolvedName) -> bool,
+) {
+    use crate::lir::{Instruction, ItemKind};
+    let mut out = Vec::with_capacity(ir.len());
+    for item in ir {
+        let constant = match &item.kind {
+            ItemKind::Constant { type_id, name, .. } => Some((
+                type_info.full_name(name).as_str().to_string(),
+                format!("::generated::drop_{type_id}"),
+            )),
+            ItemKind::Function { .. } => None,
+        };
+        let mut funcs: Vec<String> = Vec::new();
+        let mut consts: Vec<String> = Vec::new();
+        for block in &item.blocks {
+            for ins in &block.instructions {
+                match ins {
+                    Instruction::Call { func, .. } => {
+                        let s = func.as_str().to_string();
+                        if !funcs.contains(&s) {
+                            funcs.push(s);
+                        }
+                    }
+                    Instruction::FunctionAddress { name, .. } => {
+                        let s = name.as_str().to_string();
+                        if !funcs.contains(&s) {
+                            funcs.push(s);
+                        }
+                    }
+                    Instruction::ConstantAddress { name, .. } => {
+                        if !is_runtime_constant(name) {
+                            let s = type_info.full_name(name).as_str().to_string();
+                            if !consts.contains(&s) {
+                                consts.push(s);
+                            }
+                        }
+                    }
+                    _ => {}
+                }
+            }
+        }
+        out.push(LirItem {
+            name: item.name.as_str().to_string(),
+            constant,
+            funcs,
+            consts,
+        });
+    }
+    LAST_LIR.with(|l| *l.borrow_mut() = Some(out));
+}
+
+/// Take the item list of the last `codegen` on this thread.
+pub fn take_lir() -> Option<Vec<LirItem>> {
+    LAST_LIR.with(|l| l.borrow_mut().take())
+}
+
+/// Parse and type check only (the reference-graph record is made on the way):
+/// lets the harness look at the collected graph of a program before any
+/// constant initialiser is run.
+pub fn typecheck_only<Ctx: crate::runtime::OptCtx>(
+    tree: crate::FileTree,
+    rt: &crate::Runtime<Ctx>,
+) -> Result<(), crate::RotoReport> {
+    tree.parse()?.typecheck(rt).map(|_| ())
+}
